@@ -71,6 +71,7 @@ Inductive event :=
 | EPut (t : tid) (fail : bool)
 | EPutLost (t : tid)              (* the PUT takes effect, its response is lost (5xx / broken connection) *)
 | EDel (t : tid) (fail : bool)
+| EDelLost (t : tid)              (* the DELETE takes effect, its response is lost *)
 | EComplete (t : tid)
 | EDone (t : tid)
 | EExtDrop.
@@ -219,6 +220,20 @@ Definition step (skipgc : bool) (s : state) (e : event) : option state :=
             Some (set_pc (if ap then s' else add_lin s') t (Completing ROk))
       | _ => None
       end
+  | EDelLost t =>
+      (* the registry deletes the old index (and drops tags pointing at it); the client sees an
+         error: after a PUT it is the index-delete error, otherwise (the deletion WAS the
+         update) a plain error although the update took effect *)
+      match pcs s t with
+      | NeedDel oi ap =>
+          let r' := match reg s with
+                    | Some cur => if index_eqb cur oi then None else Some cur
+                    | None => None
+                    end in
+          let s' := set_reg s r' (filter (fun x => negb (index_eqb x oi)) (store s)) (junk s) in
+          Some (if ap then set_pc s' t (Completing RIdxDel) else set_pc (add_lin s') t (Completing RLost))
+      | _ => None
+      end
   | EComplete t =>
       (* m.complete(err): every member of the batch gets the result; the
          pending batch moves to the stage and gets the main status *)
@@ -329,7 +344,8 @@ Definition seq_op (st : option index * list N) (c : change) : option index * lis
    them; [obs] logs the batch handed to update and the body of every PUT. *)
 Inductive vis := VG (t : tid) | VP (t : tid) (f : bool) | VU (t : tid) (f : bool) | VD (t : tid) (f : bool)
              | VX    (* the tag was dropped by another tag's deletion of a shared index *)
-             | VL (t : tid).   (* PUT answered with an error although it took effect *)
+             | VL (t : tid)    (* PUT answered with an error although it took effect *)
+             | VK (t : tid).   (* DELETE of the old index answered with an error although it took effect *)
 Inductive obs := OBatch (main : tid) (ms : list tid) | OPut (main : tid) (new : index).
 
 (* complete / release for callers 0..n-1 (ascending), one pass *)
@@ -383,6 +399,7 @@ Definition vis_step (sg : bool) (changes : list change) (acc : state * list obs)
         let log1 := match pcs s t with NeedPut nw _ => log ++ [OPut t nw] | _ => log end in
         match step sg s (EPutLost t) with Some s1 => Some (s1, log1) | None => None end
     | VD t f => match step sg s (EDel t f) with Some s1 => Some (s1, log) | None => None end
+    | VK t => match step sg s (EDelLost t) with Some s1 => Some (s1, log) | None => None end
     | VX => match step sg s EExtDrop with Some s1 => Some (s1, log) | None => None end
     end in
   match r with
